@@ -35,6 +35,6 @@ Verdict ==
     IF Done
     THEN PrintT("@@V" \o ToJson([tid |-> tid, fail |-> IF Running(s.m) THEN {"spec-still-running"} ELSE Failing,
                                   spec |-> [cause |-> s.m.status, ops |-> s.m.ops, out |-> s.m.out, vals |-> s.vals,
-                                            ncalls |-> s.ncalls]]))
+                                            ncalls |-> s.ncalls, topop |-> TopOp(s.m)]]))
     ELSE TRUE
 =============================================================================
